@@ -507,6 +507,32 @@ def template_programs(rng):
             m = proc(False, [], ['i'], seq([ass(var('i'), num(0)), whl(bi('<', var('i'), num(2)), ass(var('i'), bi('+', var('i'), num(1)))),
                                             iff(bi('=', call(nm, [num(1)]), num(10)), putc(num(89)), putc(num(78))), exit_(bi('+', call(nm, [var('i')]), call(nm, [num(5)])))]))
             out.append(('barename:%s:%d' % (nm, order), program([], {}, {nm: p, 'main': m}, {}, {}, [nm, 'main'] if order == 0 else ['main', nm])))
+    # a short-circuit operator guarding a subscript that is out of range when the guard fails (the only array sits at the very top of
+    # memory: the word behind its last element does not exist)
+    for nm, cond in (('and', lambda i, x: bi('and', bi('<', i, num(4)), bi('~=', idx('tb', i), x))),
+                     ('or', lambda i, x: un('~', bi('or', bi('>=', i, num(4)), bi('=', idx('tb', i), x)))),
+                     ('and3', lambda i, x: bi('and', bi('<', i, num(4)), bi('and', bi('~=', idx('tb', i), x), bi('~=', idx('tb', i), num(77)))))):
+        for want in (12, 99):
+            body = [ass(idx('tb', num(k)), num(10 + k)) for k in range(4)] + [ass(var('i'), num(0)),
+                    whl(cond(var('i'), num(want)), ass(var('i'), bi('+', var('i'), num(1)))), putc(bi('+', num(48), var('i'))), exit_(var('i'))]
+            out.append(('guard:%s:%d' % (nm, want), program(['i'], {'tb': 4}, {'main': proc(False, [], [], seq(body))}, {}, {}, ['main'])))
+    # names whose scope-qualified spellings coincide under some separator (scope "pr_li" + name "no" / scope "pr" + name "li_no"; the same
+    # with no separator at all): a name table keyed by a joined string confuses them
+    for sep in ('_', '', '__', '0'):
+        q, r_ = 'li' + sep + 'no', 'pr' + sep + 'li'
+        f1 = proc(True, [('val', 'no')], ['t'], seq([ass(var('t'), bi('+', var('no'), num(1))), ret(var('t'))]))
+        f2 = proc(True, [('val', 'x')], [], seq([ass(var(q), bi('+', var(q), var('x'))), ret(var(q))]))
+        f3 = proc(True, [('val', 'li')], ['no'], seq([ass(var('no'), bi('+', var('li'), num(2))), ret(var('no'))]))
+        m = proc(False, [], [], seq([ass(var(q), num(40)), putc(call(r_, [num(50)])), putc(call('pr', [num(3)])), putc(call('pr', [num(4)])), putc(call('prx', [num(60)])), exit_(var(q))]))
+        out.append(('mangle:%s' % (sep or 'none'), program([q, 'no'], {}, {r_: f1, 'pr': f2, 'prx': f3, 'main': m}, {}, {}, [r_, 'pr', 'prx', 'main'])))
+    # string literals whose length byte has its top bit set, and the longest the definition allows
+    for n in (126, 127, 128, 129, 200, 254, 255):
+        txt = [(48 + (i * 7) % 75) for i in range(n)]
+        txt = [c if c not in (34, 39, 92) else 65 for c in txt]
+        nw = (n + 4) // 4
+        ss = [putc(call('at', [strlit('$s'), num(i)])) for i in (0, 1, nw - 1)]
+        ss.append(exit_(bi('-', call('at', [strlit('$s'), num(0)]), call('at', [strlit('$s'), num(nw - 2)]))))
+        out.append(('string:long:%d' % n, std_program(seq(ss), strings={'$s': txt})))
     # tail calls whose actuals are bare formals in other positions (a compiler that turns them into jumps must assign the formals in parallel)
     alt = proc(True, [('val', 'n'), ('val', 'p'), ('val', 'q')], [], iff(bi('=', var('n'), num(0)), ret(bi('-', var('p'), var('q'))), ret(call('alt', [bi('-', var('n'), num(1)), var('q'), var('p')]))))
     rot = proc(True, [('val', 'n'), ('val', 'p'), ('val', 'q'), ('val', 'r')], [],
